@@ -82,7 +82,10 @@ class Gen:
         r = self.r
         if st.get("in_for") and r.random() < self.p["p_forloop_print"]:
             self.feat("forloop_print")
-            return {"t": "out", "e": var("forloop", "counter") if r.random() < 0.7 else var("forloop", "parentloop", "counter")}
+            # inside fill content `forloop.parentloop` shows an aliasing defect of the code (known finding under C03);
+            # only the profile that studies scoping prints it there
+            deep = r.random() >= 0.7 and (not st.get("in_fill") or self.p.get("parentloop_in_fill", False))
+            return {"t": "out", "e": var("forloop", "parentloop", "counter") if deep else var("forloop", "counter")}
         if st.get("comp") is not None and r.random() < self.p["p_is_filled"]:
             self.feat("is_filled_print")
             return {"t": "out", "e": var("component_vars", "is_filled", r.choice(SLOTS + ["default"]))}
@@ -326,6 +329,10 @@ def size(prog):
 
 # ------------------------------------------------------------------ printing
 
+# the start tag of component tags (another one for programs that use a registry of their own)
+COMP_TAG = ["component"]
+
+
 def p_expr(e):
     if "lit" in e:
         return '"' + e["lit"] + '"'
@@ -373,13 +380,13 @@ def p_node(n):
         return s + " %}" + p_nodes(n["body"]) + "{% endfill %}"
     if t == "comp":
         if n["dyn"]:
-            s = '{% component "dynamic" is="' + n["name"] + '"'
+            s = '{% ' + COMP_TAG[0] + ' "dynamic" is="' + n["name"] + '"'
         else:
-            s = '{% component "' + n["name"] + '"'
+            s = '{% ' + COMP_TAG[0] + ' "' + n["name"] + '"'
         s += p_kwargs(n["kwargs"])
         if n["only"]:
             s += " only"
-        return s + " %}" + p_nodes(n["body"]) + "{% endcomponent %}"
+        return s + " %}" + p_nodes(n["body"]) + "{% end" + COMP_TAG[0] + " %}"
     if t == "provide":
         return '{% provide "' + n["key"] + '"' + p_kwargs(n["kwargs"]) + " %}" + p_nodes(n["body"]) + "{% endprovide %}"
     raise ValueError(t)
@@ -551,12 +558,43 @@ def side_render():
     return _SIDE["outer"].render()
 
 
+_OWN = {}
+
+
+def own_tag(isolated):
+    return "vcompi" if isolated else "vcompd"
+
+
+def own_registry(isolated):
+    if isolated not in _OWN:
+        from django.template import Engine, Library
+        from django_components import ComponentRegistry, RegistrySettings
+        from django_components.components.dynamic import DynamicComponent
+        from django_components.tag_formatter import ComponentFormatter
+        lib = Library()
+        reg = ComponentRegistry(library=lib, settings=RegistrySettings(
+            context_behavior="isolated" if isolated else "django", tag_formatter=ComponentFormatter(own_tag(isolated))))
+        Engine.get_default().template_builtins.append(lib)
+        reg.register("dynamic", DynamicComponent)
+        _OWN[isolated] = reg
+    return _OWN[isolated]
+
+
 class Built:
     """the real Component classes of a program, registered under their names"""
 
     def __init__(self, prog, rec):
         from django_components import Component, registry
         self.registry = registry
+        self.library = None
+        if prog.get("own_registry"):
+            # a registry of its own whose context_behavior is the program's, while the global setting is the opposite.
+            # One such registry per mode for the whole process: the library keeps a process-wide map from start tag
+            # to registry (component_node_subclasses_by_name), so a tag cannot move to another registry.
+            import django_components.cache as DC
+            DC.template_cache = None          # cached Templates are bound to the registry they were parsed with
+            self.registry = registry = own_registry(prog["isolated"])
+            self.library = registry.library
         self.names = []
         self.classes = {}
         self.hash2name = {}
@@ -614,6 +652,9 @@ class Built:
                 self.registry.unregister(n)
             except Exception:
                 pass
+        if self.library is not None:
+            import django_components.cache as DC
+            DC.template_cache = None
 
 
 ERRMAP = [("TemplateSyntaxError", "TemplateSyntaxError"), ("NotRegistered", "NotRegistered"), ("KeyError", "KeyError"),
@@ -649,9 +690,14 @@ def run_real(prog, keep=None, census_clear=True, entry=None, limit=10.0, reset_i
         _counter[0] = 0
     if census_clear:
         clear_census()
-    set_mode(prog["isolated"])
+    set_mode(prog["isolated"] if not prog.get("own_registry") else not prog["isolated"])
     rec = Recorder(tuple(prog["raise"]) if prog.get("raise") else None)
-    built = Built(prog, rec)
+    COMP_TAG[0] = own_tag(prog["isolated"]) if prog.get("own_registry") else "component"
+    try:
+        built = Built(prog, rec)
+    except Exception:
+        COMP_TAG[0] = "component"
+        raise
     res = {"out": None, "err": None, "exc": None}
     try:
         entry = entry or prog["entry"]
@@ -680,6 +726,7 @@ def run_real(prog, keep=None, census_clear=True, entry=None, limit=10.0, reset_i
             res["exc"] = e
     finally:
         built.close()
+        COMP_TAG[0] = "component"
     res["events"] = rec.events
     res["residue"] = census()
     res["hash2name"] = built.hash2name
